@@ -19,7 +19,8 @@ KeyOK(x) == x.keytype = "ec" => x.keycfg \in {"encSetter", "signSetter"}
 \* flows: authn = BuildAuthURLRedirect; authnPostBinding = BuildAuthURLFromDocument; authURL = BuildAuthURL (builds the
 \* request itself); authRedirect = AuthRedirect (HTTP 302 whose Location is that URL); logoutReq = BuildLogoutURLRedirect
 \* idpurl: what the configured IdP endpoint carries besides scheme, host and path (RFC 3986 query and/or fragment)
-IdpUrls == {"noquery", "query", "fragment", "queryfragment"}
+\* suffixquery: existing parameters whose NAMES end in SAMLRequest / RelayState / SigAlg (they are other parameters)
+IdpUrls == {"noquery", "query", "fragment", "queryfragment", "suffixquery"}
 \* doc: the document that is transported. built = as the library builds it from plain settings; builtCR = built from
 \* settings whose strings contain CR / TAB / LF; caller = a document of the caller's own (XML declaration, comments
 \* outside the root element, default write settings, attributes of its own, and a Destination of its own that differs
@@ -34,7 +35,10 @@ Redirect == { x \in [binding : {"redirect"}, flow : {"authn", "authnPostBinding"
                      signReq : BOOLEAN, alg : Algs, keycfg : KeyCfgs, keytype : {"rsa", "ec"}, doc : DocKinds] : KeyOK(x) /\ DocOK(x) }
 Post == { x \in [binding : {"post"}, flow : {"authn", "authnFromDoc", "logoutReq", "logoutResp"}, relay : RelayClasses, idpurl : IdpUrls,
          signReq : BOOLEAN, alg : {"unset"}, keycfg : {"encField"}, keytype : {"rsa"}, doc : DocKinds] : DocOK(x) }
-Inputs == Redirect \cup Post
+\* relay classes "binary" (octets that are not UTF-8) exist for the Redirect binding only: a URL can carry any octets
+\* percent-encoded, an HTML page is text
+RelayOK(x) == x.relay = "binary" => x.binding = "redirect"
+Inputs == { x \in Redirect \cup Post : RelayOK(x) }
 Cfgs == [x : {0}]
 
 \* the redirect URL carries a signature for the Redirect binding only; logout requests are always signed
